@@ -86,6 +86,28 @@ Example C11_ex :
   r = Ok /\ log s = [(Exc ETaskTimeout, true); (Ok, true)] /\ now s = 0 /\ fst (await 7 s) = Ok.
 Proof. vm_compute. repeat split. Qed.
 
+(* the level at which an expiry is reported, for ANY program in the body (any nesting below) and any state:
+   UncaughtTimeoutError leaves a block only when a TaskTimeout or that very error left its body (an inner
+   timeout nobody handled - never a stale record of one that was); TaskTimeout leaves a block only when it
+   left the body or the block itself expired; an ignore block ends quietly only when its body did or the block
+   itself expired; and a block that reports expiry raises TaskTimeout / ends quietly *)
+Theorem C11_reporting_level : forall k (ab : bool) t body s,
+  let r := fst (eval (Block k ab t body) s) in
+  let rb := body_result k ab t body s in
+  (r = Exc EUncaught -> rb = Exc ETaskTimeout \/ rb = Exc EUncaught) /\
+  (r = Exc ETaskTimeout -> rb = Exc ETaskTimeout \/ block_expired k ab t body s = true) /\
+  (r = Ok -> rb = Ok \/ (k = KIgnore /\ block_expired k ab t body s = true)) /\
+  (block_expired k ab t body s = true -> r = match k with KIgnore => Ok | KTimeout => Exc ETaskTimeout end).
+Proof. exact reporting_level. Qed.
+
+(* non-vacuity: an inner timeout that was handled, then a cancellation that belongs to no deadline: it passes
+   through the outer block unchanged (not UncaughtTimeoutError) *)
+Example C11_ex_stale_record :
+  fst (eval (Block KTimeout false 100 (Seq (Try (Block KTimeout false 2 (Await 10)) [ETaskTimeout] Skip) (Raise ECancelled)))
+            (init None))
+  = Exc ECancelled.
+Proof. vm_compute. reflexivity. Qed.
+
 Print Assumptions C11_facts.
 Print Assumptions C11_early_unaffected.
 Print Assumptions C11_fires_not_earlier.
@@ -97,3 +119,4 @@ Print Assumptions C11_no_stray_cancel.
 Print Assumptions C11_outer_deadline_first.
 Print Assumptions C11_inner_deadline_first.
 Print Assumptions C11_body_first.
+Print Assumptions C11_reporting_level.
